@@ -1,4 +1,5 @@
 import NfcVerif.Lemmas.PduRound
+import NfcVerif.Lemmas.PduSpec
 /-!
 # C11 - LLCP PDU encoding and decoding are mutually consistent
 
@@ -59,6 +60,22 @@ theorem nested_eq_decode (e : Bytes) (p : SPdu) (h : Impl.decodeNested e 0 e.len
     Impl.decode e = .ok (.simple p) :=
   Impl.decodeAt_of_nested h
 
+/-- PARTIAL (types without a parameter list): for an octet string that is too short, or whose
+PDU type is SYMM, UI, DISC, DM, FRMR, I, RR, RNR or an unassigned type (1011, 1111), the decoder
+returns exactly what the independent reading `Spec.decode` of the LLCP frame formats returns
+(`toOpt` forgets the exception, which by `pdu_decode_total` can only be `DecodeError`; so
+`Impl.decode b = error DecodeError ↔ Spec.decode b = none`).
+Missing: PAX, CONNECT, CC, SNL, DPS (TLV lists) and AGF - for those the agreement of
+`Spec.decode` with the real decoder is checked differentially on every run (tie "Spec.decode"). -/
+theorem pdu_impl_refines_spec_partial (b : Bytes) (hb : IsBytes b)
+    (ht : ∀ b0 b1 info, b = b0 :: b1 :: info → plainType ((b0 % 4) * 4 + b1 / 64)) :
+    toOpt (Impl.decode b) = Spec.decode b := by
+  match b, hb, ht with
+  | [], _, _ => rfl
+  | [_], _, _ => rfl
+  | b0 :: b1 :: info, hb, ht =>
+    exact Impl.plain_refines b0 b1 info (hb b0 (by simp)) (hb b1 (by simp)) (ht b0 b1 info rfl)
+
 /-! Non-vacuity and the three repaired defects on concrete inputs. -/
 example : Valid (.simple (.connect 4 32 130 0 (some [0x41, 0x42]))) := by simp [Valid, ValidS]
 example : Valid (.agf 0 0 [.disc 1 2, .snl 1 1 [(1, [0x61])] [(2, 16)], .pax 0 0 (some 0x13) none (some 3) none (some 3)]) := by
@@ -76,5 +93,7 @@ example : Impl.decode [0, 0x80, 0, 6, 0, 0x80, 0, 2, 0, 0x80] = .error .decodeEr
 example : Impl.decode [0, 0x80, 0, 2, 0x05, 0x41, 0, 3, 0x0F, 0x44, 0x05] =
     .ok (.agf 0 0 [.disc 1 1, .rr 3 4 5]) := by decide
 example : Impl.decode [0x03] = .error .decodeError := by decide
+example : plainType ((0x43 % 4) * 4 + 0x20 / 64) := by simp [plainType]
+example : Spec.decode [0x43, 0x20, 0x35, 1, 2] = some (.simple (.info 16 32 3 5 [1, 2])) := by decide
 
 end NfcVerif.C11
